@@ -167,12 +167,13 @@ def bigext_job(j):
                         h.update(x)
                 os.unlink(p + '.out')
             except OSError: pass
-            o.append((f_, m.group(1) if m else None, b.group(1) if b else None, [tuple(r) for r in runs], h.hexdigest()))
+            # (i_blocks is not compared: it legitimately shrinks when e2fsck rebuilds an extent tree into fewer tree blocks; the property lists size and content)
+            o.append((f_, m.group(1) if m else None, [tuple(r) for r in runs], h.hexdigest()))
         return o
     before = summary()
-    if max(hi - lo + 1 for x in before for lo, hi, un in x[3]) < 32767 and 'bigalloc' not in feat:
+    if max(hi - lo + 1 for x in before for lo, hi, un in x[2]) < 32767 and 'bigalloc' not in feat:
         return (cid, 'bad', [(' '.join(mode), 'preparation failed: no run of 32767 blocks was produced (vacuous)', [str(x)[:200] for x in before][:3])], 0)
-    if any(not x[3] for x in before): return (cid, 'bad', [(' '.join(mode), 'preparation failed: a file has no extents (vacuous)', [str(x)[:200] for x in before if not x[3]][:2])], 0)
+    if any(not x[2] for x in before): return (cid, 'bad', [(' '.join(mode), 'preparation failed: a file has no extents (vacuous)', [str(x)[:200] for x in before if not x[2]][:2])], 0)
     rc, out = run([E2FSCK] + list(mode) + [p], timeout=600)
     bad = []
     if rc not in (0, 1): bad.append((' '.join(mode), 'exit status %s' % rc, out[-400:]))
@@ -346,7 +347,9 @@ def main(tier, only=None):
                             ijobs.append(('i/%s/g%d/blk%d+%d/pos%d' % (name, g, b0, k, pos), name, inos))
     jjobs = []
     if 'j' in parts and os.path.exists(os.path.join(VERIF, 'corpus', 'links65000.img.xz')):
-        for tag, prep in ((('65000', []),) if quick else (('65000', []), ('64999', ['rmdir /big/d7']), ('65001-overflow', ['mkdir /big/extra']))):
+        # (one more sub-directory is not offered: debugfs mkdir counts the parent's links past EXT2_LINK_MAX instead of applying the dir_nlink rule, so that
+        # image would not be a healthy one by e2fsck's own standard)
+        for tag, prep in ((('65000', []),) if quick else (('65000', []), ('64999', ['rmdir /big/d7']), ('64998', ['rmdir /big/d7', 'rmdir /big/d9']))):
             for m in MODES:
                 jjobs.append(('j/links%s :: %s' % (tag, ' '.join(m)), prep, m))
     jres = pmap(linkmax_job, jjobs, chunksize=1) if jjobs else []
